@@ -33,6 +33,9 @@ type Case struct {
 	Params   map[string]any `json:"params,omitempty"`
 	Features []string       `json:"features,omitempty"`
 	Base     string         `json:"base,omitempty"` // mutation: the corpus query it was derived from
+	// Known names the listed finding whose stored case this is: such a case is judged as is, the exclusion
+	// predicates are not consulted (they would exclude exactly the shape the finding is about).
+	Known string `json:"known,omitempty"`
 }
 
 func (c *Case) UnmarshalJSON(b []byte) error {
@@ -357,7 +360,7 @@ func oracle(c Case) (evid.Info, error) {
 	for _, f := range c.Features {
 		cls = append(cls, "f:"+f)
 	}
-	if id := excludedBy(c, model); id != "" {
+	if id := excludedBy(c, model); id != "" && c.Known == "" {
 		evid.R.Excluded(c.Src)
 		return evid.Info{Skip: "excluded:" + id}, nil
 	}
